@@ -245,6 +245,42 @@ class Unit:
         return None
 
 
+WIDE_SRC = ["server/lib/src", "proto/src", "libs/crypto/src", "libs/scim_proto/src"]
+
+
+def supply_consts(unit, res):
+    """D7: when the woven text refers to a constant of the repository that the template does not define (rustc E0425 on an
+    ALL_CAPS name), and /repo defines exactly one such non-test constant of a primitive integer / bool type whose initializer is a
+    literal, that definition (`pub const NAME: T = LIT;`) is appended to the unit and recorded. Returns the new text or None."""
+    names = []
+    for d in res.get("diags", []):
+        m = re.match(r"cannot find value `([A-Z][A-Z0-9_]+)` in this scope", d.get("message", ""))
+        if m and m.group(1) not in names:
+            names.append(m.group(1))
+    if not names:
+        return None
+    dirs = list(dict.fromkeys(list(unit.sc.get("crate_src", ["server/lib/src"])) + WIDE_SRC))
+    ix = get_index(dirs)
+    add = []
+    for n in names:
+        cands = [it for it in ix.items if it.get("kind") == "const" and (it.get("path") == n or str(it.get("path")).endswith("::" + n)) and not it.get("in_test") and "expr" in it]
+        if len(cands) != 1:
+            return None
+        it = cands[0]
+        ty = "".join(it.get("ty", "").split())
+        lit = ix.text(it["file"], it["expr"][0], it["expr"][1]).strip()
+        if ty not in ("u8", "u16", "u32", "u64", "u128", "usize", "i8", "i16", "i32", "i64", "isize", "bool") or not re.fullmatch(r"[0-9][0-9A-Za-z_]*|true|false", lit):
+            return None
+        add.append(f"pub const {n}: {ty} = {lit};  // D7: {os.path.relpath(it['file'], REPO)}")
+        unit.weaver.records.append({"path": n, "kind": "const-literal", "file": os.path.relpath(it["file"], REPO), "span": it["span"],
+                                    "sha256": sha(lit), "rules_fired": {"D7": 1}, "diff_lines": 0, "diff": [], "literal": lit})
+    k = unit.text.rfind("\n}\nfn main")
+    if k < 0:
+        return None
+    unit.text = unit.text[:k] + "\n" + "\n".join(add) + unit.text[k:]
+    return unit.text
+
+
 def run_verus(text, workname, rlimit=None, extra_args=None, timeout=900):
     os.makedirs(WORK, exist_ok=True)
     path = os.path.join(WORK, workname + ".rs")
